@@ -217,7 +217,7 @@ end Desugar
 
 /-! ## JavaScript identifier allocation, minification off -/
 section NamesPlain
-open GV.Names GV.Proofs.NamesPlain
+open GV.Names GV.NamesPlain GV.Proofs.NamesPlain
 
 /-- encoded names a history asks for (`encodeIdent` of every requested name and of every function reference) -/
 def bases (ops : List Op) : List Name := ops.flatMap opBase
@@ -231,19 +231,40 @@ def bases (ops : List Op) : List Name := ops.flatMap opBase
     `$<digits>`); see `renderInj_ascii` / `render_clash` for when it holds / fails. This is the statement
     `GV.Props.C16.names_distinct_plain` left open (there without the side condition, which makes it false). -/
 theorem names_distinct_plain (ops : List Op) (st : NState) (hinj : RenderInj (bases ops))
-    (h : runOps false initState ops = some st) :
-    (visible st).Nodup ∧ (∀ n ∈ visible st, n ∉ reserved) := by
-  have hi := inv_run_plain (bases ops) hinj ops initState st (initP _)
+    (h : runOps false initStateG ops = some st) :
+    (visible st).Nodup ∧ (∀ n ∈ visible st, n ∉ reservedAll) := by
+  have hi := inv_run_plain (bases ops) reservedAll reservedAll_no_dollar hinj ops initStateG st (initP _ reservedGlobals)
+    (fun op hop b hb => List.mem_flatMap.mpr ⟨op, hop, hb⟩) h
+  exact ⟨hi.nodup, hi.notres⟩
+
+/-- the same from ANY seeding of the root context (e.g. the keyword list alone, the tree before the repair
+    `fixes/C01-reserve-globals.patch`): distinct, and never one of the seeded names -/
+theorem names_distinct_plain_seeded (extra : List Name) (hx : ∀ r ∈ extra, 36 ∉ r) (ops : List Op) (st : NState)
+    (hinj : RenderInj (bases ops)) (h : runOps false (initStateX extra) ops = some st) :
+    (visible st).Nodup ∧ (∀ n ∈ visible st, n ∉ reserved ++ extra) := by
+  have hR : ∀ r ∈ reserved ++ extra, 36 ∉ r := by
+    intro r hr
+    simp only [List.mem_append] at hr
+    rcases hr with hr | hr
+    · exact reserved_no_dollar r hr
+    · exact hx r hr
+  have hi := inv_run_plain (bases ops) (reserved ++ extra) hR hinj ops (initStateX extra) st (initP _ extra)
     (fun op hop b hb => List.mem_flatMap.mpr ⟨op, hop, hb⟩) h
   exact ⟨hi.nodup, hi.notres⟩
 
 /-- a name handed out is new: it was not in scope before the allocation -/
 theorem names_fresh_plain (ops : List Op) (st : NState) (name : Name) (pk : Bool) (c : List Scope) (v : Name)
-    (hinj : RenderInj (encodeIdent name :: bases ops)) (h : runOps false initState ops = some st)
+    (hinj : RenderInj (encodeIdent name :: bases ops)) (h : runOps false initStateG ops = some st)
     (ha : newVariable false name pk st.chain = some (c, v)) : v ∉ visible st := by
-  have hi := inv_run_plain (encodeIdent name :: bases ops) hinj ops initState st (initP _)
+  have hi := inv_run_plain (encodeIdent name :: bases ops) reservedAll reservedAll_no_dollar hinj ops initStateG st
+    (initP _ reservedGlobals)
     (fun op hop b hb => List.mem_cons_of_mem _ (List.mem_flatMap.mpr ⟨op, hop, hb⟩)) h
-  exact (inv_req_plain _ hinj hi (by simp) ha).2
+  exact (inv_req_plain _ reservedAll reservedAll_no_dollar hinj hi (by simp) ha).2
+
+/-- REPAIRED DEFECT (`fixes/C01-reserve-globals.patch`) — before the repair the root context was seeded with the keywords
+    only, and the first `console` of a package was handed out as `console`, the global `println` compiles to: -/
+theorem console_was_not_reserved : [99, 111, 110, 115, 111, 108, 101] ∉ reserved ∧
+    [99, 111, 110, 115, 111, 108, 101] ∈ reservedAll := by decide
 
 /-- **encodeIdent_inj**, ASCII part — identifiers made of `[A-Za-z0-9_]` (and `.`, `-`, `~`) are left alone by
     `encodeIdent`, contain no `$`, and on such names `name$n` is injective: no clash between names and counters. -/
@@ -281,8 +302,8 @@ theorem names_distinct_plain_ascii (ops : List Op) (st : NState)
       | .push fn => ∀ c ∈ fn, unreserved c = true
       | .pop => True
       | .ptr _ _ => False)
-    (h : runOps false initState ops = some st) :
-    (visible st).Nodup ∧ (∀ n ∈ visible st, n ∉ reserved) :=
+    (h : runOps false initStateG ops = some st) :
+    (visible st).Nodup ∧ (∀ n ∈ visible st, n ∉ reservedAll) :=
   names_distinct_plain ops st (renderInj_ascii ops hreq) h
 
 /-- the side condition is needed: a byte that escapes to two DECIMAL hex digits clashes with a counter — the encoded
@@ -321,11 +342,11 @@ example : RenderInj (bases [.req [120] false, .req [120] false, .push [102], .re
   rcases hop with rfl | rfl | rfl | rfl <;> decide
 
 /-- … and histories do run: the first `x` of a package is called `x` -/
-example : ∃ st, runOps false initState [.req [120] false] = some st ∧ visible st = [[120]] := by
+example : ∃ st, runOps false (initStateX []) [.req [120] false] = some st ∧ visible st = [[120]] := by
   have e0 : encodeIdent [120] = [120] := encodeIdent_ascii [120] (by decide)
   have h0 : rootScope.vars.cnt [120] = 0 := GV.Proofs.Names.rootScope_free [120] (by decide)
   refine ⟨{ chain := [addLocal rootScope [120] [120]], pkgNames := [] }, ?_, ?_⟩
-  · simp [runOps, stepOp, initState, newVariable, e0, h0, addLocal]
+  · simp [runOps, stepOp, initStateX, seedExtra, newVariable, e0, h0, addLocal]
   · simp [visible, chainLocals, addLocal, rootScope]
 
 end NamesPlain
